@@ -266,6 +266,10 @@ def run(ctx: Ctx) -> Outcome:
         for h in range(nh):
             one_history(ctx, out, key, h, ns)
     out.extra["models"] = [p[0] for p in plan]
+    # refused moves: an object into a list of itself / of one of its own descendants
+    from props import c03_moves
+
+    c03_moves.self_move_cases(ctx, out, Monitor)
     return out
 
 
